@@ -1,5 +1,6 @@
 import Driver.Gen
 import Driver.Book
+import Driver.Interleave
 import Wee.Spec.San
 /-!
 weedriver run                      : request lines on stdin → `model ||| spec` per line
@@ -12,7 +13,7 @@ partial def runLoop (h : IO.FS.Stream) (out : IO.FS.Stream) : IO Unit := do
   if line.isEmpty then return ()
   let l := line.trimAscii.toString
   if !l.isEmpty then
-    let o := handle l
+    let o := if l.startsWith "ilcheck " then ilcheck l else handle l
     out.putStrLn (o.model ++ " ||| " ++ o.spec)
     out.flush
   runLoop h out
